@@ -495,6 +495,44 @@ Verdict L_buffer(const uint8_t* p, size_t n, bool require_nul) {
     return REJECT;
 }
 
+bool RV_parse_lenient(const std::string& text, RV& out) {
+    P s{(const uint8_t*)text.data(), text.size()}; s.lenient = true; s.ws();
+    // numbers are not decoded by the lenient number scanner: decode here through strtod on the consumed span
+    struct H { static bool val(P& s, RV& out) {
+        if (s.i < s.n && (s.p[s.i] == '-' || isdig(s.p[s.i]))) { size_t st = s.i; if (!p_number(s, nullptr)) return false; std::string lit((const char*)s.p + st, s.i - st); out = RV::number(strtod(lit.c_str(), nullptr)); return true; }
+        if (s.i < s.n && s.p[s.i] == '[') { s.i++; s.ws(); out = RV::mk(RV::Arr); if (s.i < s.n && s.p[s.i] == ']') { s.i++; return true; }
+            for (;;) { RV e; if (!val(s, e)) return false; out.arr.push_back(e); s.ws(); if (s.i >= s.n) return false; if (s.p[s.i] == ',') { s.i++; s.ws(); continue; } if (s.p[s.i] == ']') { s.i++; return true; } return false; } }
+        if (s.i < s.n && s.p[s.i] == '{') { s.i++; s.ws(); out = RV::mk(RV::Obj); if (s.i < s.n && s.p[s.i] == '}') { s.i++; return true; }
+            for (;;) { std::string k; if (!p_string(s, k)) return false; s.ws(); if (s.i >= s.n || s.p[s.i] != ':') return false; s.i++; s.ws(); RV e; if (!val(s, e)) return false; out.obj.emplace_back(k, e); s.ws(); if (s.i >= s.n) return false; if (s.p[s.i] == ',') { s.i++; s.ws(); continue; } if (s.p[s.i] == '}') { s.i++; return true; } return false; } }
+        return p_value(s, &out);
+    } };
+    if (!H::val(s, out)) return false; s.ws(); return s.i == s.n;
+}
+static void ser_rec(const RV& v, std::string& o) {
+    char b[40];
+    switch (v.k) {
+        case RV::Null: o += 'n'; break; case RV::False: o += 'f'; break; case RV::True: o += 't'; break;
+        case RV::Num: { uint64_t bits; memcpy(&bits, &v.num, 8); snprintf(b, sizeof b, "#%016llx", (unsigned long long)bits); o += b; break; }
+        case RV::Str: case RV::Raw: snprintf(b, sizeof b, "%c%zu:", v.k == RV::Str ? 's' : 'r', v.str.size()); o += b; o += v.str; break;
+        case RV::Arr: o += '['; for (auto& e : v.arr) ser_rec(e, o); o += ']'; break;
+        case RV::Obj: o += '{'; for (auto& e : v.obj) { snprintf(b, sizeof b, "s%zu:", e.first.size()); o += b; o += e.first; ser_rec(e.second, o); } o += '}'; break;
+    }
+}
+std::string rv_ser(const RV& v) { std::string o; ser_rec(v, o); return o; }
+static bool deser_rec(const std::string& s, size_t& i, RV& out) {
+    if (i >= s.size()) return false;
+    char c = s[i++];
+    switch (c) {
+        case 'n': out = RV::mk(RV::Null); return true; case 'f': out = RV::mk(RV::False); return true; case 't': out = RV::mk(RV::True); return true;
+        case '#': { if (i + 16 > s.size()) return false; uint64_t bits = strtoull(s.substr(i, 16).c_str(), nullptr, 16); i += 16; double d; memcpy(&d, &bits, 8); out = RV::number(d); return true; }
+        case 's': case 'r': { size_t col = s.find(':', i); if (col == std::string::npos) return false; size_t len = (size_t)atol(s.substr(i, col - i).c_str()); if (col + 1 + len > s.size()) return false; out = RV::mk(c == 's' ? RV::Str : RV::Raw); out.str = s.substr(col + 1, len); i = col + 1 + len; return true; }
+        case '[': out = RV::mk(RV::Arr); while (i < s.size() && s[i] != ']') { RV e; if (!deser_rec(s, i, e)) return false; out.arr.push_back(e); } if (i >= s.size()) return false; i++; return true;
+        case '{': out = RV::mk(RV::Obj); while (i < s.size() && s[i] != '}') { RV k, e; if (!deser_rec(s, i, k) || k.k != RV::Str || !deser_rec(s, i, e)) return false; out.obj.emplace_back(k.str, e); } if (i >= s.size()) return false; i++; return true;
+    }
+    return false;
+}
+bool rv_deser(const std::string& s, RV& out) { size_t i = 0; return deser_rec(s, i, out) && i == s.size(); }
+
 // ------------------------------------------------------------------ walk
 namespace {
 void w_str(std::string& o, const char* s) { o += '"'; o += printable(s); o += '"'; }
